@@ -181,6 +181,25 @@ func buildWorlds() []world {
 		s.EchIdx = slices.IndexFunc(s.Outer.Exts, func(e tlsref.Ext) bool { return e.Type == tlsref.ExtECH })
 		evs = append(evs, ch("CH2-outer-sni-absent", seal2(s, 1, false).Outer.Record(), "illegal_parameter"))
 	}
+	{
+		// a valid retried hello whose legacy_session_id differs from the first hello's: the reconstructed hello carries the session
+		// id of the outer hello it travelled in (the second one)
+		s := mk(innerName, alpn, 65, s11)
+		s.Outer.SessionID = tlsref.DetBytes("another-session-id", 32)
+		b := seal2(s, 1, false)
+		e := ch("CH2-good-other-session-id", b.Outer.Record(), "")
+		e.inner = tlsref.Record(22, 0x0303, b.Expected.Msg())
+		evs = append(evs, e)
+		// a retried hello with a valid ECH extension (sealed consistently) whose OUTER hello no longer offers TLS 1.3: nothing is
+		// decrypted for such a hello, so there is no inner hello that could keep name and ALPN
+		s = mk(innerName, alpn, 65, s11)
+		for i, e := range s.Outer.Exts {
+			if e.Type == tlsref.ExtSupportedVersions {
+				s.Outer.Exts[i] = tlsref.SupportedVersions(0x0303)
+			}
+		}
+		evs = append(evs, ch("CH2-sealed-but-outer-without-tls13", seal2(s, 1, false).Outer.Record(), "illegal_parameter"))
+	}
 	evs = append(evs,
 		event{Name: "c-CCS", Dir: 'c', Rec: tlsref.Record(20, 0x0303, []byte{1})},
 		event{Name: "c-handshake-other", Dir: 'c', Rec: tlsref.Record(22, 0x0303, tlsref.HandshakeMsg(11, tlsref.DetBytes("cert", 30)))},
@@ -329,7 +348,7 @@ func Run(r *ev.Run) {
 	if r.Thorough() {
 		depth = 5
 	}
-	r.Rule(fmt.Sprintf("E4: explicit-state model of the retry protocol (state = accepted, read/write pass-through, armed-by-HRR, retried, dead); alphabet of 24 events (whole records; one backend event is two records in one Write): client {valid retried hello, hello sealed at seq 0, hello without ECH, hello without ECH that does not offer TLS 1.3 either, other config id, other suite, non-empty enc, corrupt payload, inner SNI changed, inner SNI changed in letter case only, outer SNI changed / absent (sealed consistently), inner ALPN reordered, inner ALPN dropped, CCS, other handshake, alert, application data}, backend {ServerHello, HelloRetryRequest, CCS, other handshake, application data, application data + HelloRetryRequest in one Write}; EVERY history of length %d (hence every shorter one as a prefix) x 3 first-hello situations {accepted, keys but not accepted, no keys} is replayed on a fresh real Conn and compared with the model after every event (bytes delivered, error class, alert bytes, close). plus (sub-run on the instrumented sources, engine E3) the same protocol with Read and Write running concurrently: see evidence key interleavings. distinct = distinct (world, history)", depth))
+	r.Rule(fmt.Sprintf("E4: explicit-state model of the retry protocol (state = accepted, read/write pass-through, armed-by-HRR, retried, dead); alphabet of 26 events (whole records; one backend event is two records in one Write): client {valid retried hello, hello sealed at seq 0, hello without ECH, hello without ECH that does not offer TLS 1.3 either, other config id, other suite, non-empty enc, corrupt payload, inner SNI changed, inner SNI changed in letter case only, outer SNI changed / absent (sealed consistently), inner ALPN reordered, inner ALPN dropped, CCS, other handshake, alert, application data}, backend {ServerHello, HelloRetryRequest, CCS, other handshake, application data, application data + HelloRetryRequest in one Write}; EVERY history of length %d (hence every shorter one as a prefix) x 3 first-hello situations {accepted, keys but not accepted, no keys} is replayed on a fresh real Conn and compared with the model after every event (bytes delivered, error class, alert bytes, close). plus (sub-run on the instrumented sources, engine E3) the same protocol with Read and Write running concurrently: see evidence key interleavings. distinct = distinct (world, history)", depth))
 	r.Assume("model written from the property statement; reference sender validated against crypto/tls (C03)", "events are whole records; fragmentation is C07's subject")
 	worlds := buildWorlds()
 	nev := len(worlds[0].events)
